@@ -6,12 +6,16 @@ PROPS = [json.loads(l)["id"] for l in open(os.path.join(HERE, "properties.jsonl"
 
 CHECKS = {
  "C06": dict(
-   category="proof",
-   text="Every function the property depends on in debian/arfile.py is verified against a contract, for all archives, positions, "
+   category="other",
+   text="The functions the property depends on in debian/arfile.py are under contract, for all archives, positions, "
         "sizes and operation interleavings: the five member operations == io.BytesIO over data[offset:end] (three ways of "
         "obtaining the file object, every incoming position of a shared file object, so interleaving is a corollary), from_file "
-        "(all outcomes), __collect_members (header walk with padding, loop invariant and termination), __index_archive, __init__, "
-        "getmember/getmembers/getnames, plus induction lemmas (k members listed; lookup returns the last member of a name). "
+        "(all outcomes), __index_archive, __init__, getmember / archive[name] / getmembers / getnames, plus induction lemmas (k "
+        "members listed; lookup returns the last member of a name) - all discharged. The header walk __collect_members (padding, "
+        "loop invariant, termination) is only partly discharged: exception freedom of from_file inside the loop and the "
+        "preservation of three invariants at a symbolic member count are OPEN (the back ends time out; listed in OPEN_OBLIGATIONS, "
+        "nothing is concluded from them), so the listing clause rests on the bounded cross-check (archives of 0-3 and of 1500 members, "
+        "long lines, large members) and the level is not 'proof'. "
         "VCs are generated from the AST of the real file on every run and discharged by z3 4.8.12 / cvc5 / z3 5.1.",
    design="DESIGN.md §5 C06 and Build status",
    note="Trusted: speclib models of binary file objects, first-occurrence search, bytes.split/strip/decode and int() of header fields "
